@@ -10,6 +10,11 @@ package main
 //             pion/sdp and extractFingerprint
 //   validate  fingerprint lists against real ECDSA / RSA certificates through
 //             validateFingerPrint and the DTLS VerifyPeerCertificate callback
+//   chain     certificate chains of 0..3 raw certificates (signalled certificate
+//             first / later / absent, duplicates, unparseable entries) through
+//             the DTLS VerifyPeerCertificate callback: only the leaf counts
+//   rawpeer   (c14_rawpeer.go) CONNECTED: a regular DTLSTransport against a bare
+//             pion/ice + pion/dtls peer that presents a chain of its choosing
 //   advertise real offers: where the fingerprint is written and what it is
 //   conn      CONNECTED in-process pairs over loopback (real ICE/DTLS/SCTP)
 //             with the signalled fingerprint munged, plus control runs
@@ -46,6 +51,7 @@ type c14Cert struct {
 	x509 *x509.Certificate
 	der  []byte
 	name string
+	key  crypto.PrivateKey
 }
 
 var (
@@ -70,7 +76,7 @@ func c14Certs() []c14Cert {
 			if err != nil {
 				panic(err)
 			}
-			c14Pool = append(c14Pool, c14Cert{c, x, blk.Bytes, name})
+			c14Pool = append(c14Pool, c14Cert{c, x, blk.Bytes, name, key})
 		}
 		k0, _ := ecdsa.GenerateKey(elliptic.P256(), rand.Reader)
 		add("ecdsa-p256", k0)
@@ -538,9 +544,10 @@ func c14ValidateExhaustive() []c14ValIn {
 	return out
 }
 
-func c14ValidateGen(r *Rand, _ int) c14ValIn {
+// a fingerprint list aimed at certificate ci of the pool: right values in any
+// letter case, and every kind of wrong one
+func c14GenFps(r *Rand, ci int) []c14Attr {
 	certs := c14Certs()
-	ci := r.Intn(len(certs))
 	c := certs[ci]
 	right := func() c14Attr {
 		algo := Pick(r, c14HashNames[:7])
@@ -607,7 +614,12 @@ func c14ValidateGen(r *Rand, _ int) c14ValIn {
 			}
 		}
 	}
-	return c14ValIn{ci, fps}
+	return fps
+}
+
+func c14ValidateGen(r *Rand, _ int) c14ValIn {
+	ci := r.Intn(len(c14Certs()))
+	return c14ValIn{ci, c14GenFps(r, ci)}
 }
 
 func c14ValidateCorpus() []c14ValIn {
@@ -627,6 +639,311 @@ func c14ValidateCorpus() []c14ValIn {
 		{0, nil},                                                     // no fingerprint
 		{1, []c14Attr{{"sha-256", d0}, {"sha-512", d1}, {"sha-256", d1}}}, // the right one last
 	}
+}
+
+// ---------------------------------------------------------------- chain
+
+// The certificate chain of the peer's Certificate message as pion/dtls hands
+// it to the VerifyPeerCertificate callback: 0..3 raw certificates.  The DTLS
+// handshake authenticates the key of the FIRST one (the leaf); "a peer whose
+// certificate doesn't match any fingerprint" is therefore a peer whose leaf
+// does not match, whatever else the chain carries.
+type c14ChainIn struct {
+	Chain    []int     `json:"chain"` // pool indices; c14Garbage / c14Truncated: not a certificate
+	Fps      []c14Attr `json:"fps"`
+	Disabled bool      `json:"disabled"`
+}
+
+const (
+	c14Garbage   = 100 // bytes that are not DER at all
+	c14Truncated = 101 // the first half of pool certificate 0
+)
+
+func c14ChainDER(k int) []byte {
+	switch k {
+	case c14Garbage:
+		return []byte("-----not a certificate-----")
+	case c14Truncated:
+		d := c14Certs()[0].der
+		return append([]byte{}, d[:len(d)/2]...)
+	default:
+		return c14Certs()[k].der
+	}
+}
+
+// does the certificate with these bytes match the list, and MUST the loop
+// accept it (a match not preceded by an entry whose hash name is unknown)?
+func c14Matches(fps []c14Attr, der []byte) (any, must bool) {
+	blocked := false
+	for _, f := range fps {
+		d, known := c14Digest(f[0], der)
+		if !known {
+			blocked = true
+			continue
+		}
+		if strings.EqualFold(d, f[1]) {
+			any = true
+			if !blocked {
+				must = true
+			}
+		}
+	}
+	return any, must
+}
+
+func c14ChainAPI(disabled bool) *webrtc.API {
+	se := webrtc.SettingEngine{}
+	se.DisableCertificateFingerprintVerification(disabled)
+	return webrtc.NewAPI(webrtc.WithSettingEngine(se))
+}
+
+func c14ChainCall(in c14ChainIn, chain []int) (remote []byte, err error, cls string) {
+	fps := make([]webrtc.DTLSFingerprint, len(in.Fps))
+	for i, f := range in.Fps {
+		fps[i] = webrtc.DTLSFingerprint{Algorithm: f[0], Value: f[1]}
+	}
+	raw := make([][]byte, len(chain))
+	for i, k := range chain {
+		raw[i] = c14ChainDER(k)
+	}
+	remote, err = c14ChainAPI(in.Disabled).VerifVerifyPeerCertificateChain(fps, raw)
+	cls = webrtc.VerifFingerprintErrClass(err)
+	if cls == "hash-error" && len(raw) > 0 {
+		// an error that is none of the sentinels: x509.ParseCertificate's, if it
+		// is what parsing the first entry gives here
+		if _, perr := x509.ParseCertificate(raw[0]); perr != nil && perr.Error() == err.Error() {
+			cls = "parse-error"
+		}
+	}
+	return remote, err, cls
+}
+
+func c14ChainRun(in c14ChainIn) (V, Verdict) {
+	remote, err, cls := c14ChainCall(in, in.Chain)
+	pos := -1
+	if remote != nil {
+		pos = len(in.Chain) // recorded something that is not in the chain
+		for i, k := range in.Chain {
+			if string(c14ChainDER(k)) == string(remote) {
+				pos = i
+				break
+			}
+		}
+	}
+	var res V
+	if err != nil {
+		res = VL{VS("err"), VS(cls)}
+	} else {
+		res = VL{VS("ok"), VL{}}
+	}
+	obs := VL{res, VZ(int64(pos))}
+	desc := fmt.Sprintf("chain %v fps %v disabled=%v", in.Chain, in.Fps, in.Disabled)
+
+	if len(in.Chain) == 0 {
+		if err == nil {
+			return obs, Fail("verify-callback-accepts-without-certificate", desc)
+		}
+		return obs, Pass("empty-chain/rejected", false)
+	}
+	leaf := c14ChainDER(in.Chain[0])
+	_, leafErr := x509.ParseCertificate(leaf)
+	leafAny, leafMust := false, false
+	if leafErr == nil {
+		leafAny, leafMust = c14Matches(in.Fps, leaf)
+	}
+	laterAny := false
+	for _, k := range in.Chain[1:] {
+		der := c14ChainDER(k)
+		if _, e := x509.ParseCertificate(der); e == nil && string(der) != string(leaf) {
+			if a, _ := c14Matches(in.Fps, der); a {
+				laterAny = true
+			}
+		}
+	}
+	if in.Disabled {
+		if err != nil {
+			return obs, Fail("verify-callback-rejects-with-verification-disabled", desc+": "+err.Error())
+		}
+		if string(remote) != string(leaf) {
+			return obs, Fail("remote-certificate-is-not-the-leaf", fmt.Sprintf("%s: recorded chain position %d", desc, pos))
+		}
+		return obs, Pass(fmt.Sprintf("len%d/verification-disabled", len(in.Chain)), true)
+	}
+	switch {
+	case err == nil && !leafAny && laterAny:
+		return obs, Fail("accepted-on-non-leaf-chain-certificate",
+			desc+": the leaf matches no signalled fingerprint, a later chain entry does")
+	case err == nil && !leafAny:
+		return obs, Fail("accepted-without-matching-fingerprint", desc)
+	case err != nil && leafMust:
+		return obs, Fail("matching-leaf-rejected", desc+": "+err.Error())
+	}
+	// the certificate the transport reports as the peer's is the one the
+	// handshake authenticated: the leaf
+	if string(remote) != string(leaf) {
+		return obs, Fail("remote-certificate-is-not-the-leaf", fmt.Sprintf("%s: recorded chain position %d", desc, pos))
+	}
+	// nothing after the leaf may influence the verdict
+	if len(in.Chain) > 1 {
+		_, err1, cls1 := c14ChainCall(in, in.Chain[:1])
+		if (err1 == nil) != (err == nil) || cls1 != cls {
+			return obs, Fail("chain-tail-changes-verdict", fmt.Sprintf("%s: %v, leaf alone: %v", desc, err, err1))
+		}
+	}
+	where := "absent"
+	switch {
+	case leafAny:
+		where = "leaf"
+	case laterAny:
+		where = "later"
+	}
+	out := "accepted"
+	if err != nil {
+		out = cls
+	}
+	return obs, Pass(fmt.Sprintf("len%d/match-%s/%s", len(in.Chain), where, out), len(in.Chain) > 1 || len(in.Fps) > 0)
+}
+
+func c14ChainCoq(in c14ChainIn) string {
+	fps := make([]string, len(in.Fps))
+	var names []string
+	seen := map[string]bool{}
+	for i, f := range in.Fps {
+		if !c14Printable(f[0]) || !c14Printable(f[1]) {
+			return ""
+		}
+		fps[i] = "(" + CoqString(f[0]) + ", " + CoqString(f[1]) + ")"
+		if !seen[f[0]] {
+			seen[f[0]] = true
+			names = append(names, f[0])
+		}
+	}
+	chain := make([]string, len(in.Chain))
+	for i, k := range in.Chain {
+		x, err := x509.ParseCertificate(c14ChainDER(k))
+		if err != nil {
+			chain[i] = "None"
+			continue
+		}
+		table := make([]string, len(names))
+		for j, a := range names {
+			v, ok := c14LibFingerprint(a, x)
+			table[j] = "(" + CoqString(a) + ", " + CoqOpt(ok, CoqString(v)) + ")"
+		}
+		chain[i] = "Some " + CoqList(table)
+	}
+	return "(" + CoqBool(in.Disabled) + ", " + CoqList(fps) + ", " + CoqList(chain) + ")"
+}
+
+func c14ChainCorpus() []c14ChainIn {
+	c := c14Certs()
+	g0, _ := c14Digest("sha-256", c[0].der)
+	g1, _ := c14Digest("sha-256", c[1].der)
+	s1, _ := c14Digest("sha-1", c[1].der)
+	G0 := []c14Attr{{"sha-256", strings.ToUpper(g0)}}
+	return []c14ChainIn{
+		{[]int{3, 0}, G0, false},                 // the peer authenticates with its own certificate and appends the signalled one
+		{[]int{0, 3}, G0, false},                 // the signalled one is the leaf
+		{[]int{0}, G0, false},                    //
+		{[]int{3}, G0, false},                    //
+		{[]int{1, 2, 0}, G0, false},              // signalled certificate last of three
+		{[]int{3, 0, 0}, G0, false},              // duplicates after a foreign leaf
+		{[]int{0, 0}, G0, false},                 // duplicate leaf
+		{[]int{3, 0}, G0, true},                  // verification disabled: the only bypass
+		{[]int{0, c14Garbage}, G0, false},        // garbage after a matching leaf is never parsed
+		{[]int{3, c14Garbage}, G0, false},        //
+		{[]int{c14Garbage, 0}, G0, false},        // unparseable leaf
+		{[]int{c14Truncated, 0}, G0, false},      //
+		{[]int{c14Garbage, 0}, G0, true},         // disabled: not even parsed
+		{nil, G0, false},                         // no certificate
+		{nil, G0, true},                          //
+		{[]int{2, 1}, []c14Attr{{"sha-999", g1}, {"sha-1", s1}}, false}, // unknown hash name first; the later entry matches
+		{[]int{0, 1}, []c14Attr{{"sha-256", g1}, {"sha-256", g0}}, false}, // both signalled: the leaf's is second in the list
+		{[]int{2, 1, 0}, nil, false},             // nothing signalled
+	}
+}
+
+// every arrangement of up to three of {signalled certificate G, two others}
+// (with repetition) against G's advertised fingerprint, verification on
+func c14ChainExhaustive() []c14ChainIn {
+	g, _ := c14Digest("sha-256", c14Certs()[1].der)
+	fps := []c14Attr{{"sha-256", strings.ToUpper(g)}}
+	els := []int{1, 0, 3}
+	var out []c14ChainIn
+	for _, a := range els {
+		out = append(out, c14ChainIn{[]int{a}, fps, false})
+		for _, b := range els {
+			out = append(out, c14ChainIn{[]int{a, b}, fps, false})
+			for _, c := range els {
+				out = append(out, c14ChainIn{[]int{a, b, c}, fps, false})
+			}
+		}
+	}
+	return out
+}
+
+func c14ChainGen(r *Rand, _ int) c14ChainIn {
+	certs := c14Certs()
+	gi := r.Intn(len(certs)) // the certificate the fingerprint list is aimed at
+	in := c14ChainIn{Fps: c14GenFps(r, gi), Disabled: r.Chance(1, 12)}
+	other := func() int {
+		if r.Chance(1, 10) {
+			return Pick(r, []int{c14Garbage, c14Truncated})
+		}
+		return (gi + 1 + r.Intn(len(certs)-1)) % len(certs)
+	}
+	n := r.Range(1, 3)
+	if r.Chance(1, 40) {
+		n = 0
+	}
+	where := r.Intn(4) // 0: G first, 1: G later, 2: G absent, 3: free mix with duplicates
+	for i := 0; i < n; i++ {
+		switch where {
+		case 0:
+			if i == 0 {
+				in.Chain = append(in.Chain, gi)
+			} else {
+				in.Chain = append(in.Chain, other())
+			}
+		case 1:
+			if i == 0 {
+				in.Chain = append(in.Chain, other())
+			} else if i == n-1 || r.Bool() {
+				in.Chain = append(in.Chain, gi)
+			} else {
+				in.Chain = append(in.Chain, other())
+			}
+		case 2:
+			in.Chain = append(in.Chain, other())
+		default:
+			if i > 0 && r.Chance(1, 3) {
+				in.Chain = append(in.Chain, in.Chain[r.Intn(i)]) // duplicate
+			} else if r.Bool() {
+				in.Chain = append(in.Chain, gi)
+			} else {
+				in.Chain = append(in.Chain, other())
+			}
+		}
+	}
+	if r.Chance(1, 6) { // a second signalled certificate: fingerprints of two certificates in one list
+		in.Fps = append(in.Fps, c14GenFps(r, (gi+1)%len(certs))...)
+	}
+	return in
+}
+
+func c14ChainShrink(in c14ChainIn) []c14ChainIn {
+	var out []c14ChainIn
+	for i := range in.Chain {
+		if len(in.Chain) > 1 {
+			c := append(append([]int{}, in.Chain[:i]...), in.Chain[i+1:]...)
+			out = append(out, c14ChainIn{c, in.Fps, in.Disabled})
+		}
+	}
+	for i := range in.Fps {
+		f := append(append([]c14Attr{}, in.Fps[:i]...), in.Fps[i+1:]...)
+		out = append(out, c14ChainIn{in.Chain, f, in.Disabled})
+	}
+	return out
 }
 
 // ---------------------------------------------------------------- advertise
@@ -1137,6 +1454,13 @@ func init() {
 		Quick: 800, Thorough: 10000,
 		Corpus: c14ValidateCorpus, Exhaustive: c14ValidateExhaustive, Gen: c14ValidateGen,
 		Run: c14ValidateRun, Coq: c14ValidateCoq,
+	})
+	Register(Spec[c14ChainIn]{
+		ID: "C14", Suite: "chain", CoqImports: []string{"Check.C14"},
+		CoqType: "bool * list (string * string) * list (option (list (string * option string)))", CoqRun: "Check.C14.run_chain",
+		Quick: 800, Thorough: 4000,
+		Corpus: c14ChainCorpus, Exhaustive: c14ChainExhaustive, Gen: c14ChainGen,
+		Run: c14ChainRun, Coq: c14ChainCoq, Shrink: c14ChainShrink,
 	})
 	Register(Spec[c14AdvIn]{
 		ID: "C14", Suite: "advertise", CoqImports: []string{"Check.C14"},
